@@ -286,6 +286,8 @@ def run(ck, replay=None):
     darsia = import_darsia()
     rng = random.Random(ck.seed)
     quick = ck.tier == "quick"
+    from checks.wcommon import solver_twins
+    ck.cov["twin_object_histories"] = solver_twins(ck, darsia, "C05", quick, methods=("newton",) if quick else ("newton", "bregman"))
     events = []
     sel = rng.sample(pairs, min(len(pairs), 30 if quick else 1500))
     for i, (m1, m2) in enumerate(sel):
